@@ -26,16 +26,18 @@ DenseFields(n, m, val, sz) ==
     <<<<"n", 0, sz.S, n>>, <<"m", 0, sz.S, m>>>> \o [k \in 1..Len(val) |-> <<"val", k - 1, sz.V, val[k]>>]
 
 Offsets(fs) == LET off[k \in 1..(Len(fs) + 1)] == IF k = 1 THEN 0 ELSE off[k - 1] + fs[k - 1][3] IN off
-FileOfFields(fs, sz) == [fields |-> fs, off |-> Offsets(fs), len |-> Offsets(fs)[Len(fs) + 1], sz |-> sz]
+FileOfFields(fs, sz) ==
+    LET off == Offsets(fs)
+    IN  [fields |-> fs, off |-> off, len |-> off[Len(fs) + 1], sz |-> sz,
+         at |-> [o \in {off[k] : k \in 1..Len(fs)} |-> CHOOSE k \in 1..Len(fs) : off[k] = o]]
 BinWriteCrs(A, sz)   == FileOfFields(CrsFields(A.n, A.ptr, A.col, A.val, sz), sz)
 BinWriteDense(n, m, data, sz) == FileOfFields(DenseFields(n, m, data, sz), sz)
 
 \* read one value of width w at byte offset o:  [ok, v]
 ReadAt(f, o, w) ==
     IF o < 0 \/ o + w > f.len THEN [ok |-> FALSE, v |-> 0]
-    ELSE LET hit == {k \in 1..Len(f.fields) : f.off[k] = o /\ f.fields[k][3] = w}
-         IN  IF hit = {} THEN [ok |-> TRUE, v |-> TORN]
-             ELSE [ok |-> TRUE, v |-> f.fields[CHOOSE k \in hit : TRUE][4]]
+    ELSE IF o \in DOMAIN f.at /\ f.fields[f.at[o]][3] = w THEN [ok |-> TRUE, v |-> f.fields[f.at[o]][4]]
+         ELSE [ok |-> TRUE, v |-> TORN]
 \* read cnt values of width w starting at o (f.read of cnt * w bytes)
 ReadVec(f, o, w, cnt) ==
     IF cnt = 0 THEN [ok |-> o >= 0, v |-> <<>>]                    \* a zero-byte read after a failed (negative) seek still fails
